@@ -111,6 +111,13 @@ def roundtrip(obj, X, case, viol, tag=""):
             if not same_outcome(a, b):
                 viol.append({"kind": tag + "transform-differs", "what": f"{tag}{f} on frame '{name}': original -> {str(a[:2])[:120]}, reloaded -> {str(b[:2])[:120]}"})
                 break
+    # frames that lack one column (requested features that were dropped must still be required, or not, alike)
+    for col in [c for c in X.columns if c != "f"] + ["f"]:
+        fr = X.drop(columns=[col])
+        a, b = outcome_of(obj, fr, feats[0] if feats else "f"), outcome_of(obj2, fr, feats[0] if feats else "f")
+        n += 1
+        if a[0] != b[0] or (a[0] == "raise" and a[1] != b[1]):
+            viol.append({"kind": tag + "missing-column-differs", "what": f"{tag}frame without column {col!r}: original -> {a[:2]}, reloaded -> {b[:2]}"})
     s1, s2 = summary_repr(obj), summary_repr(obj2)
     if s1 != s2:
         viol.append({"kind": tag + "summary-differs", "what": f"{tag}summary differs after reload: {s1[:150]} vs {s2[:150]}"})
@@ -193,6 +200,14 @@ def enumerate_cases(tier, seed):
                             if xdtype:
                                 c["xdtype"] = xdtype
                             cases.append(c)
+        # carvers next to an id-like feature that is dropped for every class / by the base discretization
+        for carver in ("binary", "continuous", "multiclass"):
+            alpha = carving_space.alphabet(carver, "quick")[:4]
+            tabs, tr = carving_space.tables(carver, "QNT" if kind != "CAT" else "CAT", "quick", kmax=2, alpha=alpha)
+            for cells in tabs[:: 3 if tier == "quick" else 1]:
+                vt, values, xdtype = value_types(kind, len(cells))[0]
+                cfg = {"sort_by": "tschuprowt", "max_n_mod": 3, "min_freq": 0.25, "min_freq_mod": None, "output_dtype": "float", "dropna": True}
+                cases.append({"type": "carver", "carver": carver, "kind": kind, "cells": [list(x) for x in cells], "nan": None, "dev": None, "cfg": cfg, "seed": seed, "values": values, "vt": vt + "+id", "companion": "id"})
         # discretizer family
         bal = [(3, 1), (1, 3), (2, 2), (1, 1)]
         tabs, tr = space.construct(bal, 2, 3 if tier == "quick" else 4, ordered=(kind != "CAT"), keep=lambda st: carving_space.valid_target("binary", st))
